@@ -10,6 +10,7 @@ import (
 	"runtime"
 	"sort"
 	"strings"
+	"sync"
 	"time"
 
 	"github.com/TheManticoreProject/Manticore/network/llmnr"
@@ -116,6 +117,24 @@ type running struct {
 	srv   server
 	addr  string
 	table *nbtns.NetBIOSNameServer // nil for kind "server"
+
+	mu   sync.Mutex
+	sent map[uint16]bool // every transaction id any client of this check has sent to this server
+}
+
+func (r *running) noteSent(id uint16) {
+	r.mu.Lock()
+	if r.sent == nil {
+		r.sent = map[uint16]bool{}
+	}
+	r.sent[id] = true
+	r.mu.Unlock()
+}
+
+func (r *running) wasSent(id uint16) bool {
+	r.mu.Lock()
+	defer r.mu.Unlock()
+	return r.sent[id]
 }
 
 func freePort(network string) int {
@@ -190,12 +209,49 @@ func startServer(kind string) (*running, error) {
 	return nil, lastErr
 }
 
-// client is one requester: its own UDP socket or TCP connection.
+// client is one requester: its own UDP socket or TCP connection. It keeps what it has seen: the last
+// reply per transaction id, and the ids of replies that came from the server although no client of
+// the check ever sent a request with that id to it ("every response carries the transaction id of
+// exactly one request": whatever the server sends back must carry the id of a request it was sent).
 type client struct {
-	kind string
-	udp  *net.UDPConn
-	tcp  net.Conn
-	to   *net.UDPAddr
+	kind   string
+	udp    *net.UDPConn
+	tcp    net.Conn
+	to     *net.UDPAddr
+	srv    *running
+	seen   map[uint16]resp
+	unsent []uint16
+	pause  time.Duration // between the segments of a TCP message (0: yield the processor only)
+}
+
+// note records a message received from the server.
+func (c *client) note(b []byte) {
+	if len(b) < 2 {
+		return
+	}
+	p, _ := parseResp(b)
+	p.ID = binary.BigEndian.Uint16(b)
+	if c.seen == nil {
+		c.seen = map[uint16]resp{}
+	}
+	c.seen[p.ID] = p
+	if c.srv != nil && !c.srv.wasSent(p.ID) {
+		c.unsent = append(c.unsent, p.ID)
+	}
+}
+
+// neverSent describes the replies noted above (nil: none).
+func neverSent(cs ...*client) []string {
+	var out []string
+	for _, c := range cs {
+		if c == nil {
+			continue
+		}
+		for _, id := range c.unsent {
+			out = append(out, fmt.Sprintf("id %#04x (%x)", id, c.seen[id].Raw))
+		}
+	}
+	return out
 }
 
 func dial(r *running) (*client, error) {
@@ -204,14 +260,14 @@ func dial(r *running) (*client, error) {
 		if err != nil {
 			return nil, err
 		}
-		return &client{kind: "tcp", tcp: c}, nil
+		return &client{kind: "tcp", tcp: c, srv: r}, nil
 	}
 	to, _ := net.ResolveUDPAddr("udp", r.addr)
 	c, err := net.ListenUDP("udp", &net.UDPAddr{IP: net.IPv4(127, 0, 0, 1)})
 	if err != nil {
 		return nil, err
 	}
-	return &client{kind: "udp", udp: c, to: to}, nil
+	return &client{kind: "udp", udp: c, to: to, srv: r}, nil
 }
 
 func (c *client) close() {
@@ -226,6 +282,9 @@ func (c *client) close() {
 // send writes one request; for TCP the 2-byte length prefix and the message are
 // written in the given segments (nil = one write).
 func (c *client) send(b []byte, cuts []int) error {
+	if len(b) >= 2 && c.srv != nil {
+		c.srv.noteSent(binary.BigEndian.Uint16(b))
+	}
 	if c.kind == "udp" {
 		_, err := c.udp.WriteToUDP(b, c.to)
 		return err
@@ -241,7 +300,11 @@ func (c *client) send(b []byte, cuts []int) error {
 			return err
 		}
 		prev = cut
-		runtime.Gosched()
+		if c.pause > 0 {
+			time.Sleep(c.pause) // the segment is on the wire and read by the peer before the next one follows
+		} else {
+			runtime.Gosched()
+		}
 	}
 	_, err := c.tcp.Write(framed[prev:])
 	return err
@@ -250,12 +313,18 @@ func (c *client) send(b []byte, cuts []int) error {
 func (c *client) recv(timeout time.Duration) ([]byte, error) {
 	if c.kind == "udp" {
 		c.udp.SetReadDeadline(time.Now().Add(timeout))
-		buf := make([]byte, 2048)
-		n, _, err := c.udp.ReadFromUDP(buf)
-		if err != nil {
-			return nil, err
+		for {
+			buf := make([]byte, 2048)
+			n, from, err := c.udp.ReadFromUDP(buf)
+			if err != nil {
+				return nil, err
+			}
+			if c.to != nil && (from.Port != c.to.Port || !from.IP.Equal(c.to.IP)) {
+				continue // not from the server under test (a stray datagram to a reused port)
+			}
+			c.note(buf[:n])
+			return buf[:n], nil
 		}
-		return buf[:n], nil
 	}
 	c.tcp.SetReadDeadline(time.Now().Add(timeout))
 	var l [2]byte
@@ -266,7 +335,25 @@ func (c *client) recv(timeout time.Duration) ([]byte, error) {
 	if _, err := io.ReadFull(c.tcp, b); err != nil {
 		return nil, err
 	}
+	c.note(b)
 	return b, nil
+}
+
+// await reads until a reply with the given id has been seen or d has passed.
+func (c *client) await(id uint16, d time.Duration) (resp, bool) {
+	deadline := time.Now().Add(d)
+	for {
+		if p, ok := c.seen[id]; ok {
+			return p, true
+		}
+		left := time.Until(deadline)
+		if left <= 0 {
+			return resp{}, false
+		}
+		if _, err := c.recv(left); err != nil {
+			return resp{}, false
+		}
+	}
 }
 
 // exchange sends a request and waits for the reply, re-sending a lost UDP datagram twice.
